@@ -42,6 +42,8 @@ const (
 	kMultiInit    = "multi-init-global-usage"
 	kMultiDefer   = "multi-defer-recover-result"
 	kResidue      = "recover-stack-residue"
+	kDebugUnused  = "debug-unused-func-range"
+	kNilBytes     = "nil-bytes-conversion"
 )
 
 type vinfo struct {
@@ -60,6 +62,8 @@ type vinfo struct {
 	idxOf   *vinfo // int: index variable of a loop over this container
 	appends int    // []int: appended elements accounted so far
 	nodel   bool
+	param   bool
+	maybeNil bool // []byte: may hold the zero value (nil)
 }
 
 type fsig struct {
@@ -71,6 +75,7 @@ type fsig struct {
 	readsG    bool
 	safe      bool // can not panic
 	soft      bool // may raise an exception the VM can catch (explicit panic, index out of range)
+	dirty     bool // ... and may do so while it has items on the evaluation stack (mid-expression, in a range loop or switch)
 	hard      bool // may raise a fault the VM can not catch (division by zero, shift, slicing)
 	cost      int
 	fuel      bool // first parameter is a recursion fuel in [0,5]
@@ -143,13 +148,38 @@ func (g *gen) on(key string) bool {
 	return true
 }
 
-func (g *gen) n(hi int, label string) int { return rapid.IntRange(0, hi-1).Draw(g.t, label) }
-func (g *gen) chance(pct int) bool        { return rapid.IntRange(0, 99).Draw(g.t, "pct") < pct }
+// rapid's integer generators are biased towards small values, which would distort every probability below;
+// choices are therefore assembled from unbiased boolean draws. All-false (what shrinking moves towards) means
+// index 0 / the lower bound / "no": the simplest alternative is always listed first.
+func (g *gen) bits(k int) int {
+	v := 0
+	for i := 0; i < k; i++ {
+		v <<= 1
+		if rapid.Bool().Draw(g.t, "b") {
+			v |= 1
+		}
+	}
+	return v
+}
+
+func (g *gen) n(hi int, label string) int {
+	if hi <= 1 {
+		return 0
+	}
+	k := 4
+	for 1<<(k-4) < hi {
+		k++
+	}
+	return g.bits(k) % hi
+}
+
+func (g *gen) chance(pct int) bool { return g.n(100, "pct") >= 100-pct }
+
 func (g *gen) rng(lo, hi int, l string) int {
 	if hi < lo {
 		hi = lo
 	}
-	return rapid.IntRange(lo, hi).Draw(g.t, l)
+	return lo + g.n(hi-lo+1, l)
 }
 
 // weighted picks an index according to weights (zero weights are never picked).
@@ -161,7 +191,7 @@ func (g *gen) weighted(w []int, label string) int {
 	if tot == 0 {
 		return -1
 	}
-	r := rapid.IntRange(0, tot-1).Draw(g.t, label)
+	r := g.n(tot, label)
 	for i, x := range w {
 		if r < x {
 			return i
@@ -386,7 +416,7 @@ func (g *gen) arith(op string, a, b ex) ex {
 }
 
 func (g *gen) shift(op string, a ex, k ex) ex {
-	r := ex{pan: a.pan || k.pan, hard: a.hard || k.hard || k.lo < 0, n: bin(op, a.n, k.n)}
+	r := ex{pan: a.pan || k.pan, hard: a.hard || k.hard || k.lo < 0, n: bin(op, a.n, k.n), konst: a.konst && k.konst}
 	if op == "<<" {
 		f := math.Pow(2, math.Max(k.hi, 0))
 		r.lo, r.hi = math.Min(a.lo*f, a.lo), math.Max(a.hi*f, a.hi)
@@ -470,6 +500,11 @@ func (g *gen) genInt(d int) ex {
 	case 3:
 		return g.genLen()
 	case 4:
+		if g.chance(35) {
+			if e, ok := g.genMapGet(d); ok {
+				return e
+			}
+		}
 		if e, ok := g.genIndexInt(d); ok {
 			return e
 		}
@@ -530,7 +565,7 @@ func (g *gen) genInt(d int) ex {
 			}
 		default:
 			e := g.genInt(d - 1)
-			k = ex{n: bin("&", e.n, ilit(7)), lo: 0, hi: 7, pan: e.pan, hard: e.hard}
+			k = ex{n: bin("&", e.n, ilit(7)), lo: 0, hi: 7, pan: e.pan, hard: e.hard, konst: e.konst}
 		}
 		if a.konst {
 			// an untyped constant on the left of a non-constant shift takes its type from the context
@@ -616,7 +651,7 @@ func (g *gen) indexFor(v *vinfo, d int) ex {
 }
 
 func (g *gen) indexable(typ string) *vinfo {
-	return g.pickVar(typ, func(v *vinfo) bool { return v.minLen > 0 || g.mayPanic() && g.hasIdx(v) })
+	return g.pickVar(typ, func(v *vinfo) bool { return !v.maybeNil && (v.minLen > 0 || g.mayPanic() && g.hasIdx(v)) })
 }
 
 func (g *gen) hasIdx(v *vinfo) bool {
@@ -647,6 +682,37 @@ func (g *gen) genIndexInt(d int) (ex, bool) {
 		return ex{}, false
 	}
 	return ex{n: &Node{K: "index", A: []*Node{vr(v.name), i.n}}, lo: -wideB, hi: wideB, pan: pan, hard: i.hard}, true
+}
+
+// genMapGet produces m[k]: with a key that is certainly present, or (unless the finding about absent keys is
+// listed as known) with any key.
+func (g *gen) genMapGet(d int) (ex, bool) {
+	var c []*vinfo
+	for _, v := range g.visible() {
+		if v.typ == "map[int]int" || v.typ == "map[string]int" {
+			c = append(c, v)
+		}
+	}
+	if len(c) == 0 {
+		return ex{}, false
+	}
+	mv := c[g.n(len(c), "mg")]
+	var k ex
+	switch {
+	case len(mv.sureI) > 0 && g.chance(70):
+		k = ex{n: ilit(mv.sureI[g.n(len(mv.sureI), "sk")])}
+	case len(mv.sureS) > 0 && g.chance(70):
+		k = ex{n: slitS(mv.sureS[g.n(len(mv.sureS), "sk")])}
+	default:
+		if !g.on(kMapMissing) {
+			return ex{}, false
+		}
+		k = g.mapKey(mv)
+		g.mark("map-missing-read")
+	}
+	g.useVar(mv)
+	g.mark("map-get")
+	return ex{n: &Node{K: "index", A: []*Node{vr(mv.name), k.n}}, lo: -wideB, hi: wideB, pan: k.pan, hard: k.hard}, true
 }
 
 func (g *gen) hasIdxExpr(i ex, v *vinfo) bool {
@@ -776,7 +842,7 @@ func (g *gen) callOK(f *fsig, exprCtx bool) bool {
 	if g.f.noSoft && f.soft {
 		return false
 	}
-	if f.soft && g.f.noSoftExpr && (exprCtx || g.f.stackItems > 0) {
+	if f.soft && g.f.noSoftExpr && (exprCtx || g.f.stackItems > 0 || f.dirty) {
 		return false
 	}
 	if g.f.protected && f.hard {
@@ -834,6 +900,9 @@ func (g *gen) noteCall(f *fsig) {
 	}
 	if f.soft {
 		g.f.sig.soft = true
+		if f.dirty || g.f.stackItems > 0 {
+			g.f.sig.dirty = true
+		}
 	}
 	g.mark("call")
 }
@@ -1132,8 +1201,11 @@ func btoi(b bool) int {
 var byteVals = []int64{0, 1, 2, 97, 127, 128, 255, 48}
 
 func (g *gen) genBytes(d int) ex {
-	if v := g.pickVar("[]byte", nil); v != nil && g.chance(55) {
+	if v := g.pickVar("[]byte", func(v *vinfo) bool { return !v.maybeNil || g.on(kNilBytes) }); v != nil && g.chance(55) {
 		g.useVar(v)
+		if v.maybeNil {
+			g.mark("nil-bytes-use")
+		}
 		return ex{n: vr(v.name), minLen: v.minLen, short: !v.growing}
 	}
 	if d > 0 && g.chance(40) {
